@@ -15,13 +15,13 @@ KINDS = ["VEVENT", "VTODO", "VJOURNAL", "VCARD"]
 def comp_text(kind, uid, cid, extra=""):
     if kind == "VEVENT":
         return ("BEGIN:VEVENT\r\nUID:%s\r\nDTSTAMP:20240101T000000Z\r\nDTSTART:20240102T100000Z\r\nDTEND:20240102T110000Z\r\n"
-                "SUMMARY:c%d\r\n%sEND:VEVENT\r\n" % (uid, cid, extra))
+                "SUMMARY:c%d caf\u00e9\r\n%sEND:VEVENT\r\n" % (uid, cid, extra))
     if kind == "VTODO":
-        return "BEGIN:VTODO\r\nUID:%s\r\nDTSTAMP:20240101T000000Z\r\nSUMMARY:c%d\r\n%sEND:VTODO\r\n" % (uid, cid, extra)
+        return "BEGIN:VTODO\r\nUID:%s\r\nDTSTAMP:20240101T000000Z\r\nSUMMARY:c%d caf\u00e9\r\n%sEND:VTODO\r\n" % (uid, cid, extra)
     if kind == "VJOURNAL":
-        return ("BEGIN:VJOURNAL\r\nUID:%s\r\nDTSTAMP:20240101T000000Z\r\nDTSTART;VALUE=DATE:20240102\r\nSUMMARY:c%d\r\n%sEND:VJOURNAL\r\n"
+        return ("BEGIN:VJOURNAL\r\nUID:%s\r\nDTSTAMP:20240101T000000Z\r\nDTSTART;VALUE=DATE:20240102\r\nSUMMARY:c%d caf\u00e9\r\n%sEND:VJOURNAL\r\n"
                 % (uid, cid, extra))
-    return "BEGIN:VCARD\r\nVERSION:3.0\r\nUID:%s\r\nFN:c%d\r\nN:c%d;;;;\r\n%sEND:VCARD\r\n" % (uid, cid, cid, extra)
+    return "BEGIN:VCARD\r\nVERSION:3.0\r\nUID:%s\r\nFN:c%d caf\u00e9\r\nN:c%d;;;;\r\n%sEND:VCARD\r\n" % (uid, cid, cid, extra)
 
 
 def cal_text(objs):
@@ -276,6 +276,12 @@ class Sim:
         obs = self.observe(r, st, hd, text)
         diffs = []
         ans = None
+        if m == "GET" and st == 200 and ("SUMMARY:c" in text or "FN:c" in text):
+            # every pool object carries the text "café": it must come back as it went in, whatever the storage encoding
+            import re as _re
+            bad = [l for l in _re.findall(r"(?:SUMMARY|FN):c\d+[^\r\n]*", text) if not l.endswith(" caf\u00e9")]
+            if bad:
+                diffs.append("served content differs from what was stored: %r" % bad[:2])
         if self.sid is not None:
             req = dict(r, m="dav", op="request", sid=self.sid, user=user, rights_default=self.rights_default,
                        rights=[{"user": u, "path": list(p), "perms": perms} for (u, p), perms in self.rights_table.items()],
